@@ -190,12 +190,18 @@ package logdb
 //@ ensures gIOFailed == old(gIOFailed)
 //@ loop 1 invariant gIOFailed == old(gIOFailed)
 
-//@ func (be *batchedEntries) recordBatch [C10]
+// C09 (batched format: the first partial batch of a save is merged with the cached last batch): the cache
+// must always hold the LAST batch written for the replica -- whenever the batch written here is the last
+// batch of the save, the cache is refreshed with it, whether or not it happens to end on a batch boundary
+// (an overwrite by a newer term may start in the middle of a full batch)
+//@ func (be *batchedEntries) recordBatch [C10 C09]
 //@ noframe
 //@ nobounds
 //@ requires ctx != nil
-//@ modifies gIOFailed
+//@ modifies gIOFailed, gLBcalls, gLBptr, gLBlen
 //@ ensures gIOFailed == old(gIOFailed)
+//@ ensures len(eb.Entries) > 0 && lastBatchID == eb.Entries[0].Index / batchSize ==> gLBcalls == old(gLBcalls) + 1 [C09]
+//@ ensures len(eb.Entries) > 0 && lastBatchID == eb.Entries[0].Index / batchSize && firstBatchID != lastBatchID ==> gLBptr == ptr(eb.Entries) && gLBlen == len(eb.Entries) [C09]
 
 //@ func (be *batchedEntries) getMergedFirstBatch [C10]
 //@ noframe
@@ -241,8 +247,16 @@ package logdb
 //@ trusted returns the key buffer
 //@ func (r *cache) getLastBatch [C10]
 //@ trusted in-memory cache bookkeeping
-//@ func (r *cache) setLastBatch [C10]
+// gLBcalls / gLBptr / gLBlen: how often the last-batch cache was refreshed, and with which batch
+//@ ghost var gLBcalls int
+//@ ghost var gLBptr int
+//@ ghost var gLBlen int
+//@ func (r *cache) setLastBatch [C10 C09]
 //@ trusted in-memory cache bookkeeping
+//@ modifies gLBcalls, gLBptr, gLBlen
+//@ ghostset gLBcalls := old(gLBcalls) + 1
+//@ ghostset gLBptr := ptr(eb.Entries)
+//@ ghostset gLBlen := len(eb.Entries)
 //@ func getMergedFirstBatch [C10]
 //@ trusted in-memory merge of two batches (no store I/O)
 //@ func compactBatchFields [C10]
